@@ -10,24 +10,20 @@ LEVEL_NOTE = ('per (rep, N/D) instance of the stated grid, all stored values; in
 def instances(tier, seed):
     out = []
     for rep in G.INT_REPS:
-        fs = list(G.LIB_FACTORS) + G.rep_special_factors(rep)
+        special = G.rep_special_factors(rep)
+        lib = list(G.LIB_FACTORS)
         if tier == 'thorough':
-            fs += G.random_factors(rep, seed, 12)
+            rnd = G.random_factors(rep, seed, 12)
         else:
-            fs += G.random_factors(rep, seed, 1)
+            rnd = G.random_factors(rep, seed, 1)
+            # quick: every boundary factor of every rep is kept; the library factors are thinned for the reps other than i32 / i64 / u8
+            if rep not in ('i32', 'i64', 'u8'):
+                lib = [f for i, f in enumerate(lib) if (i + seed) % 3 == 0]
         seen = set()
-        for (n, d) in fs:
+        for (n, d) in lib + special + rnd:
             if (n, d) in seen or not G.conv_compiles(rep, n, d): continue
             seen.add((n, d))
             out.append((rep, n, d))
-    if tier == 'quick':
-        # every rep keeps the library factors that compile plus its special boundary factors, but the
-        # 8 reps are thinned: full list for i32/i64/u8, a rotating third for the others
-        keep = []
-        for i, (rep, n, d) in enumerate(out):
-            if rep in ('i32', 'i64', 'u8') or (i + seed) % 3 == 0:
-                keep.append((rep, n, d))
-        out = keep
     return out
 
 
